@@ -66,13 +66,13 @@ def typestate(R: Report, rule: str, f, engine, results, subject: str) -> None:
         for seq in pr.sequences(lambda e: e.kind in ("mayraise", "query", "axiom_prune")):
             for e in seq:
                 if e.kind == "mayraise":
-                    c = f"call of {e.name} (may raise, not inlined) in {e.ctx[-1] if e.ctx else 'constructor body'}"
+                    c = f"call of {e.name} (may raise, not inlined) in {e.xctx[-1] if e.xctx else 'constructor body'}"
                     if e.dirty:
                         R.fail(rule, f, e.where(), c + " after mutation", detail="opaque raising callee after the first mutation")
                     else:
                         R.ok(rule, f, e.where(), c + " before any mutation", via="typestate")
                 elif e.kind == "query" and e.dirty:
-                    c = f"lookup {e.name}({canon_item(strip(e.args['node']))[:60]}) in {e.ctx[-1] if e.ctx else 'constructor body'}"
+                    c = f"lookup {e.name}({canon_item(strip(e.args['node']))[:60]}) in {e.xctx[-1] if e.xctx else 'constructor body'}"
                     if not e.args["known"]:
                         R.fail(rule, f, e.where(), c + " on an id not known to be a node, after mutation",
                                detail="graph lookup raises for an unknown id (modelled implicit raiser)")
@@ -128,7 +128,7 @@ def loop_induction(R: Report, rule: str, f, results) -> None:
             if k not in first or (top_line(e), getattr(e.node, "lineno", 0)) < (top_line(first[k]), getattr(first[k].node, "lineno", 0)):
                 first[k] = e
         for node, e in first.items():
-            c = f"lookup {e.name}({canon_item(strip(node))[:60]}) in {e.ctx[-1] if e.ctx else 'constructor body'}"
+            c = f"lookup {e.name}({canon_item(strip(node))[:60]}) in {e.xctx[-1] if e.xctx else 'constructor body'}"
             R.fail(rule, f, e.where(), c + " on an id not known to be a node, after mutation",
                    detail=f"graph lookup raises for an unknown id (modelled implicit raiser); reached in iteration k+1 of the loop at line {lp.lineno} "
                           f"after iteration k applied {body_mut.brief()[:80]} (inductive step over the caller-supplied list)")
